@@ -535,6 +535,7 @@ def _init(tier, plan=0):
     _CFG["tier"] = tier
     _CFG["events"] = all_events(pl["flags"], pl["family"])
     _CFG["cap"] = pl["cap"]
+    _CFG["devs"] = pl["devs"]
 
 
 _W = None
@@ -570,7 +571,10 @@ def expand(hist):
     base = w.snapshot()
     folder0 = w.folder
     clean = True  # nothing has run in this process since the history was replayed
+    spent = sum(1 for h in hist if is_deviation(tuple(h)))
     for ev in _CFG["events"]:
+        if is_deviation(ev) and spent >= _CFG.get("devs", 99):
+            continue  # over the deviation budget: the search would drop the transition unseen
         w.folder = folder0
         w.restore(base)
         if not w.enabled(ev):
